@@ -39,7 +39,7 @@ def _replay(name, law):
             "inverse": "bad = not same(float(t.membership(z)), y, tol)",
             "mono_inc": "bad = y <= y2 and not (z <= z2 + tol * max(1.0, abs(z)))",
             "mono_dec": "bad = y <= y2 and not (z >= z2 - tol * max(1.0, abs(z)))",
-            "pyfloat": "bad = not same(float(t.tsukamoto(float(y))), float(t.tsukamoto(np.array(y))), 0.0)",
+            "pyfloat": "bad = not (same(float(t.tsukamoto(float(y))), float(t.tsukamoto(np.float64(y))), 0.0) and same(float(t.tsukamoto(np.array(y))), float(t.tsukamoto(np.float64(y))), 0.0))",
             "arrays": "ya = np.array([y, y2]); r = t.tsukamoto(ya); y0d = np.array(y); t.tsukamoto(y0d);"
                       " bad = not same(r, [z, z2], 0.0) or not same(ya, [y, y2]) or not same(y0d, y)\n"
                       "for A in (np.array([y]), np.array([[y]]), np.array([[y], [y2]]), np.array([[y, y2]]), np.array([[y, y, y2], [y2, y, y2]]).T):\n"
@@ -209,11 +209,11 @@ def ob_pyfloat(name):
         ins = _inputs(P, h)
         ins["y"] = y
         label = f"{name}/python-floats"
-        for p in ob.paths(pre, lambda: (tpy.tsukamoto(py(y)), tnp.tsukamoto(y))):
+        for p in ob.paths(pre, lambda: (tpy.tsukamoto(py(y)), tnp.tsukamoto(y), tnp.tsukamoto(core.sym0d(y)))):
             if p.exc is not None:
                 ob.unexpected(pre, p, label, ins, _replay(name, "pyfloat"))
                 continue
-            ob.prove(pre, p, same(tf(p.result[0]), tf(p.result[1])), label, ins, _replay(name, "pyfloat"))
+            ob.prove(pre, p, z3.And(same(tf(p.result[0]), tf(p.result[1])), same(tf(p.result[2]), tf(p.result[1]))), label, ins, _replay(name, "pyfloat"))
 
     return run
 
